@@ -1,7 +1,7 @@
 """Python ast -> Lean translators; each regenerates one file under lean/Petl/Gen."""
 import importlib
 
-NAMES = ['ladder', 'sort_wiring', 'ctor_purity', 'heap_ir', 'selectors', 'policy', 'streaming', 'argforms', 'bare_next', 'merge_shape']
+NAMES = ['ladder', 'sort_wiring', 'ctor_purity', 'heap_ir', 'selectors', 'policy', 'streaming', 'argforms', 'bare_next', 'merge_shape', 'fingerprints']
 
 
 def run_all():
